@@ -12,7 +12,8 @@ LEVEL_TEXT = ("Every input of a pool of generated scripts (borrowed from the C01
               "parsed in sql mode and in each of the other 14 modes, flat and grouped, with and without normalize_names, by the real "
               "library. Against sql mode: same number, order and kind of entities; table common fields equal (schema<->dataset renamed, "
               "index entries modulo the MSSQL-only 'clustered' key); no exception unless sql mode raises one; every top-level table key "
-              "outside the common set must be documented for that mode in a frozen catalogue.")
+              "outside the common set must be documented for that mode in a frozen catalogue."
+              " The pool contains every catalogued dialect clause and creation modifier, alter histories and a type x default cross; the catalogue is tight: every one of its 73 (field, mode) pairs is witnessed at top level by some input (reported in the evidence), and sql mode itself must show no dialect field at top level.")
 LEVEL_NOTE = ("The sql-mode result is the reference for common content. The field->modes catalogue is transcribed from README/tests/"
               "output/dialects.py at the pinned commit and frozen here; it is not read from the code under test.")
 RULE = ("case = (input, normalize_names, group_by_type) evaluated under all 15 modes; non-trivial = sql-mode result has >= 1 entity; "
